@@ -1817,6 +1817,8 @@ impl<'a> VisitMut for GhostArgPass<'a> {
 
 struct AnchorPass<'a> {
     cfg: &'a Config,
+    /// calls that are the whole body of a match arm (`PAT => f(..),`), counted separately from statement calls
+    seen_armcalls: BTreeMap<String, u64>,
     seen_calls: BTreeMap<String, u64>,
     placed: Vec<String>,
     returns: u64,
@@ -1899,6 +1901,19 @@ impl<'a> VisitMut for AnchorPass<'a> {
     }
     fn visit_arm_mut(&mut self, a: &mut syn::Arm) {
         // `PAT => return X,` : an arm whose body is a bare return counts as a return statement
+        if let Some(c) = callee_name(&a.body) {
+            let n = *self.seen_armcalls.get(&c).unwrap_or(&0);
+            self.seen_armcalls.insert(c.clone(), n + 1);
+            if self.cfg.anchors.iter().any(|(k, nm, m)| k == "after_armcall" && *nm == c && *m == n) {
+                // only for unit-valued calls: `{ call; anchor }` has type () like the call it replaces (rustc checks it)
+                let st = anchor_stmt("after_armcall", &c, n);
+                let mut body = (*a.body).clone();
+                self.visit_expr_mut(&mut body);
+                a.body = Box::new(syn::parse_quote!({ #body; #st }));
+                self.placed.push(format!("after_armcall_{}_{}", c, n));
+                return;
+            }
+        }
         if let syn::Expr::Return(_) = &*a.body {
             let n = self.returns;
             self.returns += 1;
@@ -2188,7 +2203,7 @@ pub fn apply_to_fn(
             let lifted_anchors: Vec<(String, String, u64)> = cfg.anchors.iter().filter(|(kd, _, _)| kd.starts_with("l_")).map(|(kd, n, m)| (kd[2..].to_string(), n.clone(), *m)).collect();
             if !lifted_anchors.is_empty() {
                 let acfg = Config { anchors: lifted_anchors.clone(), ..Config::default() };
-                let mut ap = AnchorPass { cfg: &acfg, seen_calls: BTreeMap::new(), placed: vec![], returns: 0, iflets: 0 };
+                let mut ap = AnchorPass { cfg: &acfg, seen_armcalls: BTreeMap::new(), seen_calls: BTreeMap::new(), placed: vec![], returns: 0, iflets: 0 };
                 ap.visit_block_mut(&mut lf.block);
                 if lifted_anchors.iter().any(|(kd, _, _)| kd == "before_tail") {
                     match lf.block.stmts.last() {
@@ -2220,13 +2235,14 @@ pub fn apply_to_fn(
     }
     // anchors
     if !cfg.anchors.is_empty() {
-        let mut p = AnchorPass { cfg, seen_calls: BTreeMap::new(), placed: vec![], returns: 0, iflets: 0 };
+        let mut p = AnchorPass { cfg, seen_armcalls: BTreeMap::new(), seen_calls: BTreeMap::new(), placed: vec![], returns: 0, iflets: 0 };
         p.visit_block_mut(&mut f.block);
         info.anchors = p.placed.clone();
         for (k, n, m) in &cfg.anchors {
             let key = match k.as_str() {
                 "after_call" => format!("after_call_{}_{}", n, m),
                 "before_call" => format!("before_call_{}_{}", n, m),
+                "after_armcall" => format!("after_armcall_{}_{}", n, m),
                 "before_return" => format!("before_return_r_{}", m),
                 "iflet_head" => format!("iflet_head_b_{}", m),
                 "entry" => continue,
